@@ -7,3 +7,4 @@ cd /verif
 props=${@:-all}
 for p in $props; do ./check $p 2>/dev/null | grep -v "^OK" | cut -c1-200; done
 git -C /repo checkout -- .
+python3 /verif/tools/extract.py /repo/src /verif/lean/DesyncModel/Generated.lean >/dev/null
